@@ -307,6 +307,8 @@ class SeqExec(Structured):
             return ('size', base, self.ev(sl, st))
         if isinstance(sl, ast.Constant) and isinstance(sl.value, int):
             return ('item', base, sl.value)
+        if base[0] == 'attrs' and isinstance(sl, ast.Name):
+            return ('at', base, self.ev(sl, st))
         return ('opaque', U(e))
 
     def comp(self, e, st):
@@ -330,7 +332,20 @@ class SeqExec(Structured):
             out = ('filter', out, neg, membership(self.ev(t.comparators[0], inner)))
         v = self.ev(e.elt, inner)
         if v == elem:
-            return out
+            return ('set', out) if isinstance(e, ast.SetComp) else out
+        if v[0] == 'position' and v[2] == elem:
+            # {A.index(a) for a in X if ..}: the positions in A of the selected elements; a set keeps each once, a list / generator
+            # keeps repeats and the order of X
+            return ('positions', v[1], out, isinstance(e, ast.SetComp))
+        if v[0] == 'at' and v[2] == elem and base[0] == 'sortedpos' and base[1] == v[1] and out == base:
+            # (A[i] for i in sorted(P)), P positions in A of the members of X: exactly the elements of A, in A's order, that are in X
+            # - when P is a set.  From a sequence with repeats the repeats survive.
+            A, X, isset = base[1], base[2], base[3]
+            if not isset:
+                return ('opaque', 'elements of %s at sorted positions with repeats kept (%s)' % (show(A), U(e)))
+            if X[0] == 'filter' and not X[2] and X[3] == A:
+                X = X[1]
+            return ('filter', A, False, membership(X))
         if v[0] == 'size' and v[2] == elem:
             return sizes(v[1], out)
         if v[0] == 'edge' and v[1] == elem:
@@ -341,6 +356,7 @@ class SeqExec(Structured):
 
     ev_ListComp = comp
     ev_GeneratorExp = comp
+    ev_SetComp = comp
 
     def ev_Call(self, e, st):
         args = [self.ev(a, st) for a in e.args]
@@ -363,6 +379,8 @@ class SeqExec(Structured):
             if S[0] == 'setand' and S[1] == A:
                 return ('filter', A, False, S[2])
             return ('opaque', U(e))
+        if fn == 'sorted' and len(args) == 1 and not kw and args[0][0] == 'positions':
+            return ('sortedpos',) + args[0][1:]
         if fn == 'zip' and len(args) == 2:
             return ('zip', args[0], args[1])
         if fn == 'dict' and len(args) == 1 and args[0][0] == 'zip':
@@ -391,6 +409,8 @@ class SeqExec(Structured):
                         return ('select', recv, iterview(c))
             if f.attr in ('keys', 'values') and not args:
                 return (f.attr, recv)
+            if f.attr == 'index' and len(args) == 1 and not kw and recv[0] in ('attrs', 'filter', 'p'):
+                return ('position', recv, args[0])
             if recv[0] == 'set' and f.attr in ('difference', 'intersection') and len(args) == 1:
                 return ('setdiff' if f.attr == 'difference' else 'setand', recv[1], membership(args[0]))
             d = self.as_dom(recv)
@@ -428,4 +448,6 @@ def membership(v):
     v = iterview(v)
     if v[0] == 'set' and len(v) == 2:
         return iterview(v[1])
+    if v[0] in ('config', 'keys') and len(v) == 2 and is_dom(v[1]):
+        return attrs_of(v[1])            # the keys of D.config are D's attributes
     return v
